@@ -36,6 +36,7 @@ type srvOpt struct {
 	ResetOnWrite bool // after the server closed, the client's next write fails (RST) instead of vanishing
 	BadLen      bool // may send a frame whose header announces more bytes than ever arrive
 	Delay       time.Duration // the server thinks this long before every action (slow server)
+	AnswerForms []int // menu per answer: 0 the usual reply, 1 header-only error reply without question, 2 the question in another letter case
 	PauseAfterAnswer time.Duration // after an answer the server does not read for this long: the client's next Write blocks that long (full send buffer)
 	SplitStall  time.Duration // TCP: every answer but the first of a connection arrives in two segments with this pause between them (a stall inside a frame)
 	MuteAfter   int           // >0: after this many answers (all connections together) the server never answers again
@@ -351,6 +352,23 @@ func (s *tsys) serve(cn *tConn) {
 			cn.pending = append(cn.pending[:a.i:a.i], cn.pending[a.i+1:]...)
 			s.nonce++
 			ans := fk.Answer(w.wire, s.nonce)
+			if len(so.AnswerForms) > 0 {
+				switch so.AnswerForms[vs.Choose(len(so.AnswerForms))] {
+				case 1:
+					// a header-only error reply (QDCOUNT 0): REFUSED from an ACL, FORMERR from a server that cannot parse the query
+					ans = []byte{w.wire[0], w.wire[1], 0x81, 0x05, 0, 0, 0, 0, 0, 0, 0, 0, 0}
+					ans = ans[:12]
+					cn.actLog += "h"
+				case 2:
+					// the question comes back in another letter case
+					for i := 12; i < len(ans) && i < 12+len(fk.QName(w.wire)); i++ {
+						if ans[i] >= 'a' && ans[i] <= 'z' {
+							ans[i] -= 32
+						}
+					}
+					cn.actLog += "u"
+				}
+			}
 			rec := &answerRec{forQuery: w.wire, payload: ans}
 			if so.SplitStall > 0 && s.tcp && len(cn.answers) > 0 {
 				// the bytes after the pause, taken alone, look like a frame addressed to the
